@@ -10,10 +10,13 @@
    below the set is C10. Message.Marshal of a struct over the MTI and primitive data elements adds exactly the ids of
    its non-zero indexed fields (C14_marshal_set). Unsetting a subfield path of a composite (any depth): nothing at the path is
    populated afterwards, the object there is as new - so nothing below it can come back -, and every path that does not
-   pass through it is populated exactly as before (C14_unset_path). The clause about Unmarshal-into-struct and the no-resurrection clause for paths are checked
+   pass through it is populated exactly as before (C14_unset_path). UnmarshalJSON adds exactly the keys of the accepted document, for messages and for composites at
+   any depth (C14_json_set). Over histories (C14_history_no_resurrection): after any sequence of the state-changing
+   operations every data element outside the populated set is exactly as in a new message, so nothing can come back.
+   The clause about Unmarshal-into-struct and the no-resurrection clause for paths are checked
    by the oracle (reference set, resurrection check, and: a fresh message given exactly the observable values packs to
    the same bytes after every step of every history). *)
-From Iso Require Import Model.Base Model.Bitmap Model.Spec Model.Field Model.Message Model.Json Model.MessageOps Proofs.BaseLemmas Proofs.StateProofs Proofs.MessageRoundtrip Proofs.PresenceProofs Model.Marshal Proofs.MarshalStruct Proofs.UnsetPathProofs.
+From Iso Require Import Model.Base Model.Bitmap Model.Spec Model.Field Model.Message Model.Json Model.MessageOps Proofs.BaseLemmas Proofs.StateProofs Proofs.MessageRoundtrip Proofs.PresenceProofs Model.Marshal Proofs.MarshalStruct Proofs.UnsetPathProofs Proofs.IndependenceProofs Proofs.PresenceOps Proofs.HistoryProofs.
 
 Theorem C14_bitmap_is_getfields : forall S m m' b, bm_auto (ms_bm S) = true -> 1 <= bm_len (ms_bm S) ->
   m_pack S m = (m', Ok b) ->
@@ -84,3 +87,30 @@ Proof.
   intros path s st st' sp Hne H Hs Hsp Hst. split; [apply (unset_path_fresh path s st st' sp Hne H Hs Hsp Hst)|]. intros q Hq. apply fresh_nothing_set. exact Hq.
 Qed.
 Print Assumptions C14_unset_path.
+
+(* UnmarshalJSON: the populated set grows by exactly the keys of the accepted document - of a message, and of a
+   composite at any depth (the keys that name a subfield; other keys are accepted only where the specification skips them) *)
+Theorem C14_json_set :
+  (forall S kvs m m', m_from_json S m kvs = (m', Ok tt) ->
+     forall id, zmem id (m_present m') = zmem id (m_present m) || existsb (key_is id) kvs) /\
+  (forall pref len mode subs kvs set sts set' sts', map fst sts = map fst subs ->
+     json_into (FComp pref len mode subs) (SComp set sts) (JO kvs) = (SComp set' sts', Ok tt) ->
+     forall t, bmem t set' = bmem t set || existsb (names_sub subs t) kvs).
+Proof. split; [exact from_json_present|exact json_into_comp_present]. Qed.
+Print Assumptions C14_json_set.
+
+(* no resurrection, over histories: after ANY sequence of the state-changing operations of the message API (HistoryProofs.hop:
+   setters, unset by id and by path, Unpack and Marshal whatever their outcome, accepted JSON documents, Pack, JSON, Bitmap,
+   Clone) every data element that is not in the populated set - never written, unset, or dropped by an Unpack - is
+   exactly as in a new message: it holds no value and nothing nested, so populating it or a sibling later cannot bring
+   anything back. (The one exception is the element at which the last Unpack failed, which keeps the partial value the
+   caller may read and is re-created by the next Unpack.) *)
+Theorem C14_history_no_resurrection : forall S ops, NoDup (map fst (ms_fields S)) -> (forall i s, In (i, s) (ms_fields S) -> 2 <= i) ->
+  hist_ok S (mfresh S) ops ->
+  let m := hrun S (mfresh S) ops in
+  forall id s, In (id, s) (ms_fields S) -> zmem id (m_present m) = false -> bytes_eqb (itoa id) (m_failed m) = false ->
+    zlookup id (m_fields m) = Some (fresh s).
+Proof.
+  intros S ops Hnd H2 Hok m. apply (history_clean S Hnd H2 ops (mfresh S) (mfresh_clean S Hnd) Hok).
+Qed.
+Print Assumptions C14_history_no_resurrection.
